@@ -1051,6 +1051,26 @@ class _Visitor(ast.NodeVisitor):
                 return KnownValue(-operand.val)
         return None
 
+    def _call_with_known_args(
+        self, func: typing.Callable[..., Any], node: ast.Call
+    ) -> Optional[Value]:
+        args = []
+        kwargs = {}
+        for arg in node.args:
+            arg_value = self.visit(arg)
+            if not isinstance(arg_value, KnownValue):
+                return None
+            args.append(arg_value.val)
+        for kw in node.keywords:
+            kwarg_value = self.visit(kw.value)
+            if kw.arg is None or not isinstance(kwarg_value, KnownValue):
+                return None
+            kwargs[kw.arg] = kwarg_value.val
+        try:
+            return KnownValue(func(*args, **kwargs))
+        except Exception:
+            return None
+
     def visit_Call(self, node: ast.Call) -> Optional[Value]:
         func = self.visit(node.func)
         if not isinstance(func, KnownValue):
@@ -1148,9 +1168,29 @@ class _Visitor(ast.NodeVisitor):
         elif isinstance(func.val, type):
             if func.val is object:
                 return AnyValue(AnySource.inference)
+            if _is_metadata_class(func.val):
+                # Annotated[] metadata such as annotated_types.Gt(5) or a CustomCheck:
+                # build the object, as the visitor does for an unquoted annotation, so
+                # that string annotations keep their metadata.
+                metadata = self._call_with_known_args(func.val, node)
+                if metadata is not None:
+                    return metadata
             return TypedValue(func.val)
         else:
             return None
+
+
+def _is_metadata_class(typ: type) -> bool:
+    try:
+        import annotated_types
+    except ImportError:
+        bases: tuple[type, ...] = (CustomCheck,)
+    else:
+        bases = (CustomCheck, annotated_types.BaseMetadata)
+    try:
+        return issubclass(typ, bases)
+    except TypeError:
+        return False
 
 
 def _is_tuple(typ: object) -> bool:
